@@ -150,6 +150,9 @@ def add_keys(router):
     return canon_sorted(pairs, CANON_PARAMS, key=lambda x: x[0]), lookup
 
 
+_escapes = None
+
+
 def _eval_expr(node, env):
     return eval(compile(ast.Expression(body=node), '<c12-table>', 'eval'), {'__builtins__': {}}, dict(env))
 
@@ -180,6 +183,23 @@ def client_text_keys(client):
     kn, vn = [a.arg for a in inner.args.args][:2]
     if len(appended) != 1 or _eval_expr(appended[0], {kn: 'K', vn: 'V'}) != "K='V'":
         raise ValueError("client.addMatch: an item is not written as k='v'")
+    # escaping: the value may be rewritten before it is formatted; evaluate that expression on samples
+    rewrites = [n.value for n in ast.walk(inner)
+                if isinstance(n, ast.Assign) and len(n.targets) == 1 and ast.unparse(n.targets[0]) == vn]
+    global _escapes
+    if not rewrites:
+        _escapes = False
+    elif len(rewrites) == 1:
+        def rw(x):
+            return eval(compile(ast.Expression(body=rewrites[0]), '<c12-table>', 'eval'), {'__builtins__': {}, 'str': str}, {vn: x})
+        if rw("a'b'") == "a'\\''b'\\''" and rw('plain,=\\') == 'plain,=\\':
+            _escapes = True
+        elif rw("a'b") == "a'b":
+            _escapes = False
+        else:
+            raise ValueError("client.addMatch: the value is rewritten in an unsupported way: " + ast.unparse(rewrites[0]))
+    else:
+        raise ValueError('client.addMatch: the value is rewritten more than once')
     guards = [ast.unparse(n.test) for n in ast.walk(inner) if isinstance(n, ast.If)]
     if guards != ['%s is not None' % vn]:
         raise ValueError('client.addMatch: add() is not guarded by `v is not None`: %r' % (guards,))
@@ -245,6 +265,9 @@ def emit(repo):
     L.append('')
     L.append('/-- `true`: the type constraint is stored as `_mtypes.get(mtype, mtype)`; `false`: as given. -/')
     L.append('def mtypeLookup : Bool := %s' % ('true' if lookup == 'get' else 'false'))
+    L.append('')
+    L.append("/-- `true`: `DBusClientConnection.addMatch` writes an apostrophe inside a value as '\\'' (DBus quoting rule). -/")
+    L.append('def clientEscapes : Bool := %s' % ('true' if _escapes else 'false'))
     L.append('')
     L.append('/-- `DBusClientConnection.addMatch`: (key of the rule text, variable written under it), canonical order. -/')
     L.append('def clientTextKeys : List (List Char × List Char) :=')
